@@ -23,3 +23,4 @@ func verifObserveBytes(label string, b []byte)
 func verifObserveString(label string, s string)
 func verifQuiesce()
 func verifSetBudget(n int)
+func verifTerminates(budget int, label string)
